@@ -1068,6 +1068,17 @@ impl C20 {
                         return;
                     }
                 }
+                // the one fallible operation of the family: an error exactly for a non-business start,
+                // and a business day otherwise
+                if let Ok((r, start_bus)) = catch(|| (calobj.add_bus_days(&date, *n, *settlement), calobj.is_bus_day(&date))) {
+                    v.label_if(!start_bus, "arith:non-business-start");
+                    match r {
+                        Ok(d) if !start_bus => v.fail("add_bus_days | error contract (error iff the start is not a business day)", format!("{:?}: non-business start accepted, returned {}", c, d)),
+                        Err(_) if start_bus => v.fail("add_bus_days | error contract (error iff the start is not a business day)", format!("{:?}: business start rejected", c)),
+                        Ok(d) if !calobj.is_bus_day(&d) => v.fail("add_bus_days | returned a date that is not a business day", format!("{:?}: {}", c, d)),
+                        _ => {}
+                    }
+                }
             }
             Case::AddMonths { cal, day, months, roll, modifier, settlement } => {
                 v.label("arith:months");
@@ -1186,7 +1197,7 @@ impl Property for C20 {
         vec![Stage::random("random", tier.pick(300_000, 20_000_000), case_strategy)]
     }
     fn rule(&self) -> String {
-        "three families, everything under catch_unwind with the interpreter initialised. (A) constructors and fallible operations with arbitrary arguments: Dual/Dual2::try_new and try_new_from (any floats incl. NaN/inf, duplicate names, coefficient vectors of any length 0-8/0-17), Ccy / FXPair / FXRate (arbitrary short unicode strings incl. ones whose lower-casing changes the byte length), FXRates::try_new (arbitrary quote multisets, any base, rates incl. 0 / negative / NaN / inf, all number kinds, settlement mixes; a union-find predicts Ok/Err), NamedCal::try_new (strings over [A-Za-z,| ] and arbitrary unicode; a parser model predicts Ok/Err), PPSpline::csolve + evaluation (any site/data lengths, end orders 0..k+1, both lsq flags, all three element types; the harness's own rank test classifies the collocation matrix), get_roll, index_value. (B) add_days / add_bus_days / lag / roll / bus_date_range over the whole i8 range and add_months for offsets landing in 1970-2200 with every roll kind and day 1-31 on arbitrary calendars. (C) valid JSON documents of 14 kinds (direct and through the tagged from_json entry point) with 1-3 structural mutations (delete, duplicate key / element, replace by another JSON value, semantically wrong string, array resize, number perturbation, re-shaping a serialised array to another shape with the same element count); the mutated text is loaded; an accepted object is re-saved and every number / spline inside must satisfy its shape rule, a loaded FX market must answer all n*n rates. Oracle: no panic anywhere; Ok/Err as the explicit contracts predict. Non-trivial: an argument tuple that hits an error rule or an extreme; |n| >= 100 or a capped roll day; a mutated document that differs from the original.".into()
+        "three families, everything under catch_unwind with the interpreter initialised. (A) constructors and fallible operations with arbitrary arguments: Dual/Dual2::try_new and try_new_from (any floats incl. NaN/inf, duplicate names, coefficient vectors of any length 0-8/0-17), Ccy / FXPair / FXRate (arbitrary short unicode strings incl. ones whose lower-casing changes the byte length), FXRates::try_new (arbitrary quote multisets, any base, rates incl. 0 / negative / NaN / inf, all number kinds, settlement mixes; a union-find predicts Ok/Err), NamedCal::try_new (strings over [A-Za-z,| ] and arbitrary unicode; a parser model predicts Ok/Err), PPSpline::csolve + evaluation (any site/data lengths, end orders 0..k+1, both lsq flags, all three element types; the harness's own rank test classifies the collocation matrix), get_roll, index_value. (B) add_days / add_bus_days / lag / roll / bus_date_range over the whole i8 range and add_months for offsets landing in 1970-2200 with every roll kind and day 1-31 on arbitrary calendars; add_bus_days must return an error exactly for a non-business start and a business day otherwise. (C) valid JSON documents of 14 kinds (direct and through the tagged from_json entry point) with 1-3 structural mutations (delete, duplicate key / element, replace by another JSON value, semantically wrong string, array resize, number perturbation, re-shaping a serialised array to another shape with the same element count); the mutated text is loaded; an accepted object is re-saved and every number / spline inside must satisfy its shape rule, a loaded FX market must answer all n*n rates. Oracle: no panic anywhere; Ok/Err as the explicit contracts predict. Non-trivial: an argument tuple that hits an error rule or an extreme; |n| >= 100 or a capped roll day; a mutated document that differs from the original.".into()
     }
     fn floors(&self, tier: Tier) -> Vec<Floor> {
         let n = tier.pick(300_000u64, 20_000_000);
@@ -1196,6 +1207,7 @@ impl Property for C20 {
             Floor { label: "csolve:singular site set", min: n / 500 },
             Floor { label: "csolve:admissible site set", min: n / 200 },
             Floor { label: "arith:extreme-count", min: n / 500 },
+            Floor { label: "arith:non-business-start", min: n / 200 },
             Floor { label: "fx:valid", min: n / 2000 },
             Floor { label: "mutation:duplicate-key", min: n / 50 },
             Floor { label: "mutation:bad-string", min: n / 50 },
